@@ -178,9 +178,13 @@ def container_puts(o):
             from sa.terms import top_cases
             for a_ in e.args[0].args[1:]:
                 # extend(x if c else (y,)): each alternative on its own; a tuple / list literal contributes its items
-                for _, alt in (top_cases(a_) if e.args[0].op == "meth:extend" else [({}, a_)]):
+                from sa.terms import dict_pairs as _dp
+                for _, alt in (top_cases(a_) if e.args[0].op in ("meth:extend", "meth:update") else [({}, a_)]):
                     if e.args[0].op == "meth:extend" and isinstance(alt, App) and alt.op in ("tuple", "list"):
                         out += [("call", None, x) for x in alt.args]
+                    elif e.args[0].op == "meth:update" and isinstance(alt, App) and _dp(alt) is not None and all(
+                            not (isinstance(k_, App) and k_.op == "spread") for k_, _v in _dp(alt)):
+                        out += [("store", k_, v_) for k_, v_ in _dp(alt)]  # update({k: v}) is a store under k
                     else:
                         out.append(("call", None, alt))
     for s_ in (subterms(o.value) if o.value is not None else ()):
